@@ -765,7 +765,7 @@ class Discharger:
                 why = "byte_size is not count × unit of self: %s" % sem_det
             elif body is not None and body["t"] == "verify" and unit_name and op["op"] == "*":
                 live = [A.unwrap(a) for a in A.flat_alts(body["p"]) if not c05.never_succeeds(self.g, a)]
-                okg, why = size_guard(body["f"], unit_name, self.f)
+                okg, why = size_guard(body["f"], unit_name, self.f, self.f.fns[pk].module)
                 if okg and live:
                     return True, "arith", "count × unit in Size::byte_size: every Size the parser builds (%d live alternatives) passed `count.checked_mul(size.%s()).is_some()` on the same u64 operands in a verify (dominating range guard at construction)" % (len(live), unit_name)
             return False, "arith", "integer Mul on run-time operands in %s (`%s`): the construction-time guard is not the same product (%s): overflow panics in debug builds and wraps in release" % (fn, src(op), why)
@@ -830,37 +830,39 @@ def counter_width_ok_layout(facts):
     return (not bad), ("counter width: %s (needs ≥ %d values)" % (", ".join(seen), MAX_NAMES)) if not bad else "; ".join(bad)
 
 
-def size_guard(f, unit_name, facts):
-    """The verify predicate is `|size| { let (V1(c) | V2(c) | ..) = size; c.checked_mul(size.UNIT()).is_some() }` over every
-    variant of the enum, with no conversion of either operand (a wider type would make the guard vacuous)."""
-    if f.get("k") != "closure" or len(f["params"]) != 1:
-        return False, "guard is not a closure or function of one argument"
-    pn = rx.closure_params(f)[0].get("name")
-    body = f["body"]
-    stmts = rx.stmts_of(body)
-    if len(stmts) != 2 or stmts[0]["k"] != "let" or stmts[0]["init"] is None or not rx.is_var(stmts[0]["init"], pn):
-        return False, "guard body is not `let <all variants>(count) = size; <test>`"
-    cases = rx.pat_cases(rx.strip_typed(stmts[0]["pat"])) if hasattr(rx, "strip_typed") else rx.pat_cases(stmts[0]["pat"])
-    names = set()
-    variants = set()
-    for p in cases:
-        pv = rx.pat_variant(p)
-        if not pv or len(pv[1]) != 1 or pv[1][0]["k"] != "ident":
-            return False, "pattern case %s is not Variant(count)" % F.psrc(p)
-        variants.add(pv[0].split("::")[-1])
-        names.add(pv[1][0]["name"])
-    if variants != set(facts.variants("Size")) or len(names) != 1:
-        return False, "the pattern does not bind the payload of every Size variant to one name"
-    cnt = names.pop()
-    t = rx.tail_expr(body)
-    if not (t is not None and t["k"] == "mcall" and t["m"] == "is_some" and not t["args"]):
-        return False, "guard result is not `.is_some()`"
-    cm = t["recv"]
-    if not (cm["k"] == "mcall" and cm["m"] == "checked_mul" and len(cm["args"]) == 1 and rx.is_var(cm["recv"], cnt)):
-        return False, "guard is not `%s.checked_mul(..)` directly on the u64 payload: `%s`" % (cnt, src(cm)[:80])
-    a = rx.peel(cm["args"][0])
-    if not (a.get("k") == "mcall" and a["m"] == unit_name and not a["args"] and rx.is_var(a["recv"], pn)):
-        return False, "guard multiplies by `%s`, not by %s.%s()" % (src(a)[:60], pn, unit_name)
+def size_guard(f, unit_name, facts, module=()):
+    """The verify predicate, evaluated on Variant(count) for every variant of Size with an unknown count: the answer must be
+    `count.checked_mul(k).is_some()` on the u64 payload itself (no conversion of either operand — a wider type would make
+    the guard vacuous) with k the unit byte_size multiplies the same variant by.  Written as a closure, a named function,
+    with a helper that extracts the count, … — only what is computed counts."""
+    from .. import probe as P
+
+    pr = P.Probe(facts, None, tuple(module))
+    try:
+        gv = pr.ev(f, {})
+    except P.NoEval as ex:
+        return False, "guard is not a function that can be evaluated: %s" % ex
+    bs = facts.fn("Size::byte_size")
+    for v in facts.variants("Size"):
+        cnt = P.Opq("count")
+        size = ("enum", "Size::%s" % v, [cnt])
+        try:
+            got = pr.apply(gv, [size])
+            prod = pr.invoke(bs, size, [])
+        except P.NoEval as ex:
+            return False, "guard or byte_size not evaluable for Size::%s: %s" % (v, ex)
+        if not (isinstance(prod, P.Opq) and prod.expr and prod.expr[0] == "bin" and prod.expr[1] == "*" and any(x is cnt for x in prod.expr[2:]) and any(isinstance(x, int) and not isinstance(x, bool) for x in prod.expr[2:])):
+            return False, "byte_size of Size::%s is `%r`, not count × constant" % (v, prod)
+        k = next(x for x in prod.expr[2:] if isinstance(x, int))
+        ex_ = got.expr if isinstance(got, P.Opq) else None
+        if not (ex_ and ex_[0] == "mcall" and ex_[1] == "is_some" and not ex_[3]):
+            return False, "guard result for Size::%s is `%r`, not `.is_some()` of a checked product" % (v, got)
+        cm = ex_[2].expr if isinstance(ex_[2], P.Opq) else None
+        if not (cm and cm[0] == "mcall" and cm[1] == "checked_mul" and len(cm[3]) == 1):
+            return False, "guard for Size::%s tests `%r`, not a checked_mul" % (v, ex_[2])
+        ops = [cm[2], cm[3][0]]
+        if not (any(x is cnt for x in ops) and any(isinstance(x, int) and not isinstance(x, bool) and x == k for x in ops)):
+            return False, "guard for Size::%s multiplies `%r` by `%r`, byte_size multiplies the u64 count by %d" % (v, ops[0], ops[1], k)
     return True, ""
 
 
